@@ -2360,7 +2360,7 @@ where
         // RSSI = -pkt_status[0] / 2
         let rssi = ((-(pkt_status[0] as i32)) >> 1) as i16;
         // SNR = (pkt_status[1] + 2) / 4
-        let snr = (((pkt_status[1] as i8) + 2) >> 2) as i16;
+        let snr = ((pkt_status[1] as i8) as i16 + 2) >> 2;
 
         Ok(PacketStatus { rssi, snr })
     }
